@@ -23,6 +23,7 @@
 #undef malloc
 #undef free
 #undef realloc
+#include "vf_frame.h"
 
 static vf_tree T;
 /* blocks owned by the subtree at i that a delete of it must NOT release because an ancestor-or-self container is a reference */
@@ -45,7 +46,9 @@ int main(VF_MAIN_ARGS)
     keep = kept_blocks(0, 0);
     if (IN.nullarg & 1) { cJSON_Delete(0); VF_AP(7, vf_nfree == 0, "C07 deleting NULL does nothing"); }
 
+    VF_FRAME_BEGIN();
     cJSON_Delete(root);
+    VF_FRAME_END(0);
 
     VF_AP(7, vf_live == keep, "C07 delete releases exactly the blocks the tree owns (children of reference nodes stay alive)");
     VF_AP(1, vf_live == keep, "C01 a well-formed tree can be deleted without error");
